@@ -1,0 +1,65 @@
+//go:build verif
+// +build verif
+
+package redis
+
+import (
+	"github.com/samaritan-proxy/samaritan/pb/config/service"
+)
+
+// This file is only compiled with -tags verif. Re-exports of the compression
+// filter and the SCAN cursor logic for the verification harness under /verif.
+
+// VerifFilterRequest runs the real compression filter `times` times on a simple
+// request with the given body (a resend runs the filter chain again on the same
+// request). It returns whether the filter stopped the request (with the response
+// it set), and a finish function that completes the request with a backend reply,
+// running the registered hooks, and returns what the client would get.
+func VerifFilterRequest(cfg *service.Config, body *RespValue, times int) (stopped bool, early *RespValue, finish func(*RespValue) *RespValue) {
+	f := newCompressFilter(newConfig(cfg))
+	chain := newRequestFilterChain()
+	chain.AddFilter(f)
+	req := newSimpleRequest(body)
+	for i := 0; i < times; i++ {
+		if chain.Do(req) == Stop {
+			return true, req.Response(), nil
+		}
+	}
+	return false, nil, func(resp *RespValue) *RespValue {
+		req.SetResponse(resp)
+		return req.Response()
+	}
+}
+
+// VerifCpsHeader returns the compression header of the snappy algorithm.
+func VerifCpsHeader() []byte {
+	for _, h := range cpsHdrs {
+		return append([]byte(nil), h...)
+	}
+	return nil
+}
+
+// VerifGenCursor is scanRequest.genCursor.
+func VerifGenCursor(nodeIdx uint16, nodeCursor uint64) uint64 {
+	return (&scanRequest{}).genCursor(nodeIdx, nodeCursor)
+}
+
+// VerifParseCursor is scanRequest.parseCursor.
+func VerifParseCursor(cursor uint64) (uint16, uint64) {
+	return (&scanRequest{}).parseCursor(cursor)
+}
+
+// VerifScanRewrite builds a scan request from the client's request body, converts
+// it as handleScan does, completes it with reply and returns the node index the
+// request was addressed to, the cursor text sent to the node and the client-visible response.
+func VerifScanRewrite(body *RespValue, reply *RespValue) (nodeIdx uint16, nodeCursor string, resp *RespValue, err error) {
+	raw := newRawRequest(body)
+	sr, err := newScanRequest(raw)
+	if err != nil {
+		return 0, "", nil, err
+	}
+	idx, sreq := sr.Convert()
+	cur := string(sreq.Body().Array[1].Text)
+	sreq.SetResponse(reply)
+	return idx, cur, raw.Response(), nil
+}
